@@ -260,20 +260,37 @@ func c20Extras(c *Ctx, mer, ana *ssa.Function, withHelpers func(*ssa.Function) [
 				return
 			}
 			isProc := ci.Common().StaticCallee() == proc
-			if !isProc && ci.Common().StaticCallee() == nil && !ci.Common().IsInvoke() {
-				for _, d := range varOrigins(mer, ci.Common().Value) {
-					if mc, isMC := d.(*ssa.MakeClosure); isMC && mc.Fn == ssa.Value(proc) {
-						isProc = true
-					}
+			viaBound := false // called through a method value (`process := mw.process`): the receiver is not among the operands
+			isProcValue := func(d ssa.Value) bool {
+				mc, isMC := d.(*ssa.MakeClosure)
+				if !isMC {
+					return false
 				}
-				// ... or the function handed to a helper that walks the nodes
-				for _, d := range deepDefs(ci.Common().Value, append([]*ssa.Function{mer}, fns...)) {
-					if mc, isMC := d.(*ssa.MakeClosure); isMC && mc.Fn == ssa.Value(proc) {
-						isProc = true
-					}
-					for _, d2 := range varOrigins(mer, d) {
-						if mc, isMC := d2.(*ssa.MakeClosure); isMC && mc.Fn == ssa.Value(proc) {
+				if mc.Fn == ssa.Value(proc) {
+					return true
+				}
+				if w, isF := mc.Fn.(*ssa.Function); isF && w != proc && c11BoundMethod(w) == proc {
+					viaBound = true
+					return true
+				}
+				return false
+			}
+			if !isProc && !ci.Common().IsInvoke() {
+				if _, isFn := ci.Common().Value.(*ssa.Function); !isFn {
+					for _, d := range varOrigins(mer, ci.Common().Value) {
+						if isProcValue(d) {
 							isProc = true
+						}
+					}
+					// ... or the function handed to a helper that walks the nodes
+					for _, d := range deepDefs(ci.Common().Value, append([]*ssa.Function{mer}, fns...)) {
+						if isProcValue(d) {
+							isProc = true
+						}
+						for _, d2 := range varOrigins(mer, d) {
+							if isProcValue(d2) {
+								isProc = true
+							}
 						}
 					}
 				}
@@ -283,6 +300,9 @@ func c20Extras(c *Ctx, mer, ana *ssa.Function, withHelpers func(*ssa.Function) [
 			}
 			args := ci.Common().Args
 			k := nameIdx
+			if viaBound && proc.Signature.Recv() != nil {
+				k--
+			}
 			if ci.Common().StaticCallee() == nil && proc.Parent() != nil {
 				// a call of a function literal: operands are its parameters
 			}
